@@ -581,6 +581,10 @@ where
     // trailing bytes are rejected
     let mut t = bytes.clone();
     t.push(kernel::choose(M, 256) as u8);
+    let more = kernel::choose(M, 4);
+    if more > 0 {
+        t.extend(std::iter::repeat_n(0x5A, [0usize, 1, 7, 700][more as usize]));
+    }
     if alpenglow::network::deserialize::<T>(&t).is_ok() {
         kernel::violation("C19", format!("trailing-bytes-accepted:{name}"), format!("{name} with one trailing byte decodes"));
     }
@@ -736,6 +740,9 @@ pub fn c19_wire(max_validators: usize) -> WorldOutcome {
                     sizes.insert(format!("tx_{len}"), json!(b.len()));
                 }
             }
+            // a message that fills the datagram exactly (not one a correct client sends): the
+            // trailing-byte rule must hold at the MTU boundary too
+            let _ = roundtrip("transaction-filling-the-datagram", &Transaction(vec![kernel::choose(G, 256) as u8; MTU_BYTES - 8]), false);
         }
         _ => {
             // arbitrary byte strings offered to every decoder
